@@ -192,7 +192,7 @@ func (a *argAnalysis) callees(site ssa.CallInstruction) []*ssa.Function {
 func libFresh(full string) bool {
 	switch full {
 	case "slices.Clone", "maps.Clone", "google.golang.org/protobuf/proto.Clone", "strings.Split", "strings.Fields", "bytes.Clone", "slices.Collect", "maps.Keys", "maps.Values",
-		"slices.Sorted", "gonum.org/v1/gonum/graph.NodesOf", "gonum.org/v1/gonum/graph.LinesOf", "gonum.org/v1/gonum/graph.EdgesOf":
+		"slices.Sorted", "slices.SortedFunc", "slices.SortedStableFunc", "slices.Concat", "slices.Repeat", "maps.Collect", "gonum.org/v1/gonum/graph.NodesOf", "gonum.org/v1/gonum/graph.LinesOf", "gonum.org/v1/gonum/graph.EdgesOf":
 		return true
 	}
 	return false
@@ -223,12 +223,13 @@ func libReadOnly(fn *types.Func, full string) bool {
 		return true
 	case "slices":
 		switch fn.Name() {
-		case "Contains", "ContainsFunc", "Index", "IndexFunc", "Equal", "EqualFunc", "Clone", "Max", "Min", "BinarySearch", "BinarySearchFunc", "IsSorted", "IsSortedFunc", "Values", "All":
+		case "Contains", "ContainsFunc", "Index", "IndexFunc", "Equal", "EqualFunc", "Clone", "Max", "Min", "BinarySearch", "BinarySearchFunc", "IsSorted", "IsSortedFunc", "Values", "All",
+			"Sorted", "SortedFunc", "SortedStableFunc", "Collect", "Concat", "MaxFunc", "MinFunc", "Compare", "CompareFunc", "Backward", "Chunk", "Repeat":
 			return true
 		}
 	case "maps":
 		switch fn.Name() {
-		case "Keys", "Values", "Clone", "Equal", "All":
+		case "Keys", "Values", "Clone", "Equal", "EqualFunc", "All", "Collect":
 			return true
 		}
 	case "google.golang.org/protobuf/proto":
